@@ -58,7 +58,7 @@ def run(ctx, rep):
         if len(fs) != 1:
             rep.anchor("C11.view", "<Value as %s>::%s" % (tr, mname))
             continue
-        f = fs[0]
+        f = F.inlined(fs[0])   # private same-file helpers are spliced in
         views = set()
         ty_read = False
         raw_fields = []
@@ -132,7 +132,7 @@ def run(ctx, rep):
         fs = [f for f in F.fns.values() if f.impl_adt == VALUE and f.name == mname and f.impl_trait in TRAITS]
         if not fs:
             continue
-        f = fs[0]
+        f = F.inlined(fs[0])
         found = False
         for bfn in bodies(F, f):
             T = Terms(bfn)
